@@ -26,24 +26,31 @@ Fixpoint mset_eqb {A} (e : A -> A -> bool) (a b : list A) : bool :=
 
 Record fac_case := FC {
   fc_verdict : option bool;
-  fc_steps : list (gate * (list obs * list nat)) }.   (* gate, batch, all_task_handles() afterwards *)
+  fc_steps : list (list gate * (list obs * list nat)) }.
+  (* the gates fired without a pause in between, the batch, all_task_handles() afterwards *)
 
-Fixpoint run_steps (v : option bool) (s : st) (steps : list (gate * (list obs * list nat))) : bool :=
+Fixpoint fire_all (v : option bool) (s : st) (gs : list gate) : st * list obs :=
+  match gs with
+  | [] => (s, [])
+  | g :: r => let '(s1, o1) := fire v s g in let '(s2, o2) := fire_all v s1 r in (s2, o1 ++ o2)
+  end.
+
+Fixpoint run_steps (v : option bool) (s : st) (steps : list (list gate * (list obs * list nat))) : bool :=
   match steps with
   | [] => true
-  | (g, (batch, live)) :: r =>
-      let '(s', o) := fire v s g in
+  | (gs, (batch, live)) :: r =>
+      let '(s', o) := fire_all v s gs in
       mset_eqb obs_eqb o batch && mset_eqb Nat.eqb (handles s') live && run_steps v s' r
   end.
 
 Definition check_fac (c : fac_case) : bool := run_steps (fc_verdict c) init (fc_steps c).
 
-Fixpoint first_bad_step (v : option bool) (i : nat) (s : st) (steps : list (gate * (list obs * list nat)))
+Fixpoint first_bad_step (v : option bool) (i : nat) (s : st) (steps : list (list gate * (list obs * list nat)))
   : option (nat * list obs * list nat) :=
   match steps with
   | [] => None
-  | (g, (batch, live)) :: r =>
-      let '(s', o) := fire v s g in
+  | (gs, (batch, live)) :: r =>
+      let '(s', o) := fire_all v s gs in
       if mset_eqb obs_eqb o batch && mset_eqb Nat.eqb (handles s') live then first_bad_step v (S i) s' r
       else Some (i, o, handles s')
   end.
